@@ -24,6 +24,16 @@ def scenarios(tier, seed):
         for layout, pvars, rev in combos:
             out.append(base_scenario(rng, nsteps=nsteps, ops=ops, numrec=numrec, layout=layout, pvars=pvars, rev=rev,
                                      nland=0, ntimes=1, nkill=rng.choice([0, 1]), ncut=rng.choice([0, 1])))
+    # the configured file name: stems with digits and underscores, with and without their own counter (start, width; also
+    # numbers that outgrow the width) - the names on disk must be those that module FileName prescribes
+    rl = random.Random(seed + 5)
+    for sc in out:
+        if rl.random() < 0.6:
+            stem = rl.choice(["out", "o", "run1", "exp_10", "y2020", "a_b", "x_1_2", "n7_", "q__", "t00", "_", "r1_0_1"])
+            if rl.random() < 0.55:
+                start, width = rl.choice([(0, 3), (4, 2), (9, 1), (8, 1), (99, 2), (98, 2), (1, 4), (10, 2), (7, 3), (0, 1), (1, 3), (100, 3)])
+                stem += "_%0*d" % (width, start)
+            sc["outname"] = stem + ".nc"
     return out
 
 
@@ -31,6 +41,7 @@ def run(tier, seed):
     rep = Report("C07", tier, seed)
     rep.add_proof("ColdRecordsInWindow")
     rep.add_mc("MC_OutFile", tlc.model_check("MC_OutFile", "MC_OutFile.cfg" if tier == "thorough" else "MC_OutFile_quick.cfg", must_take=["Step", "Finish"]))
+    rep.add_mc("MC_FileName", tlc.model_check("MC_FileName", "MC_FileName.cfg" if tier == "thorough" else "MC_FileName_quick.cfg", must_take=["Grow"]))
     scs = scenarios(tier, seed)
     traces = pmap("harness.e2e", "run_e2e", scs)
     rep.add_tv("e2e-schedule", "LadimTrace", scs, traces, tlc.validate_traces("LadimTrace", traces, batch_events=1500), family=FAMILY)
@@ -39,5 +50,6 @@ def run(tier, seed):
     rep.extra["exhaustive"] = True
     rep.rule = ("every (nsteps, ops, numrec) of the bound x {sparse, dense} x {particle variables} x {forward, reversed} "
                 "(quick: 3 of the 8 combinations per triple); non-trivial = distinct combinations where the period does not divide the run or output is split")
+    rep.extra["file_name_stems"] = len({s.get("outname", "out.nc") for s in scs})
     rep.assumptions = ["cold start; the warm-start schedule is model-checked here and trace-validated under C08"]
     return rep
